@@ -27,6 +27,9 @@ WRAPPED = {False: {'adaptive_minmax': ['modpoly', 'imodpoly'], 'collab_pls': ['a
 INNER_KW = {'asls': {'lam': 1e3}, 'arpls': {'lam': 1e3}, 'airpls': {'lam': 1e3}, 'modpoly': {'poly_order': 2}, 'imodpoly': {'poly_order': 2},
             'mor': {'half_window': 3}, 'pspline_asls': {'lam': 1e1, 'num_knots': 8}}
 SKIP = {'cwt_br'}          # minutes on small data
+# one out-of-domain value per parameter name (the documented domains of property C15), used to make a call raise part-way
+INVALID = {'max_cross': -1, 'lam': -1.0, 'p': 2.0, 'quantile': 2.0, 'eta': -1.0, 'num_knots': 1, 'spline_degree': -1, 'diff_order': 0, 'poly_order': -1,
+           'half_window': -1, 'max_half_window': -1, 'lam_1': -1.0, 'num_eigens': 0}
 
 
 def _jsonable(v):
@@ -299,7 +302,14 @@ def systematic(rng, two_d, pool=None, what=('repeat',), max_pairs=None):
                     cur = dict(copy.deepcopy(cur), **{a: va + 1, b: vb - 1})
                     steps.append(step(name, cur, w))
                     continue
+                prev_cur = cur
                 cur = _change_one(rng, name, e, two_d, cur, only=only)
+                # a call that RAISES after part of the new state may have been recorded: the changed arguments together with one
+                # out-of-domain value of another parameter, then the valid call with the changed arguments
+                changed = {k for k in cur if cur.get(k) != prev_cur.get(k)}
+                bad = next(((pn, v) for pn, v in INVALID.items() if pn in e['params'] and pn not in changed), None)
+                if bad is not None and len(steps) < 9:
+                    steps.append(step(name, dict(copy.deepcopy(cur), **{bad[0]: bad[1]}), w))
                 steps.append(step(name, cur, w))
             # optimizers sort for themselves (skip_sorting): their histories run on unsorted x; the others on either
             specs.append(dict(frame(unsorted=bool(e['cells'].get('skip_sorting')) or rng.random() < 0.35), steps=steps))
